@@ -85,8 +85,22 @@ pub fn check_with(case: &Case, exhaustive_up_to: usize) -> CaseResult {
                 &[Flavour::Blocking, Flavour::Async, Flavour::BlockingInterrupted, Flavour::AsyncCancelled]
             };
             for &fl in flavours {
-                let obs = run(fl, GREETING, prefix, &seg, 0);
+                let obs = run(fl, GREETING, prefix, &seg, 2);
                 execs += 1;
+                // asking again does not turn a stream that ended inside a response into one that ended
+                // cleanly (an application draining the connection in a loop must not conclude "closed
+                // cleanly" on the second call)
+                if want_terminal != Terminal::CleanEof && obs.terminal == want_terminal {
+                    if let Some(bad) = obs.after_terminal.iter().find(|t| matches!(t, Terminal::CleanEof | Terminal::Response)) {
+                        r.fail(format!(
+                            "cut at {cut} of {} ({}), {fl:?}/{seg:?}: the end of the stream inside a response is reported as UnexpectedEof first, but the next receive() on the same connection reports {bad:?}",
+                            enc.bytes.len(),
+                            loc.name()
+                        ));
+                        r.execs = execs;
+                        return r;
+                    }
+                }
                 if obs.responses.len() != k || obs.responses[..] != expected[..k] {
                     r.fail(format!(
                         "cut at {cut} ({}), {fl:?}/{seg:?}: {} complete response(s) precede the cut but {} were delivered{}",
